@@ -9,6 +9,7 @@ VARIABLES l, bad, free
 vars == <<l, bad, free>>
 Call(e) == [op |-> e.op, i |-> e.args.i, line |-> e.args.line, c |-> e.args.c, n |-> e.args.n]
 Judge(e) == IF e.op = "end" THEN e.out.k = "ok" /\ e.out.answered = e.out.expected
+            ELSE IF e.args.rep # <<>> THEN e.out.k = "ok" /\ e.out.ret = RepDecl(e.args.rep[1].unit, e.args.rep[1].n, Call(e))
             ELSE e.out.k = "ok" /\ e.out.ret = Decl(e.args.text, Call(e))
 Free(e) == FALSE
 Init == l = 1 /\ bad = <<>> /\ free = <<>>
